@@ -100,9 +100,9 @@ theorem Ext.refl (s : Mgr) : Ext s s := ⟨fun _ h => h, Nat.le_refl _⟩
 theorem Ext.trans {a b c : Mgr} (h1 : Ext a b) (h2 : Ext b c) : Ext a c :=
   ⟨fun ci h => h2.sub ci (h1.sub ci h), Nat.le_trans h1.next h2.next⟩
 
-theorem inv_init : Inv Mgr.init := by
+theorem inv_initWith (tc : Content → Bool) : Inv (Mgr.initWith tc) := by
   refine ⟨?_, ?_, ?_, ?_, ?_, ?_, ?_, ?_, ?_, ?_, ?_⟩
-  all_goals simp [Mgr.init, trueC, falseC, trueId, falseId, Content.ids, Payload.ids]
+  all_goals simp [Mgr.initWith, trueC, falseC, trueId, falseId, Content.ids, Payload.ids]
   · intro c i j h1 h2; rcases h1 with ⟨rfl, rfl⟩ | ⟨rfl, rfl⟩ <;> rcases h2 with ⟨h, rfl⟩ | ⟨h, rfl⟩ <;> simp_all
   · intro c d i h1 h2; rcases h1 with ⟨rfl, rfl⟩ | ⟨rfl, rfl⟩ <;> rcases h2 with ⟨rfl, h⟩ | ⟨rfl, h⟩ <;> simp_all
   · intro c i h; rcases h with ⟨rfl, rfl⟩ | ⟨rfl, rfl⟩ <;> simp
@@ -111,20 +111,22 @@ theorem inv_init : Inv Mgr.init := by
     rcases this with rfl | rfl <;> simp
   · intro c i h; rcases h with ⟨rfl, rfl⟩ | ⟨rfl, rfl⟩ <;> simp
 
+theorem inv_init : Inv Mgr.init := inv_initWith _
+
 /-! ## `create_node` -/
 
 theorem validId_iff {s : Mgr} {i : Nid} : s.validId i = true ↔ 0 < i ∧ i < s.nextId := by
   simp [Mgr.validId]
 
-/-- What `createNode` does, as a specification. -/
-theorem createNode_spec (c : Content) (s : Mgr) (hs : Inv s) :
-    let r := createNode c s
+/-- What the table part of `create_node` does, as a specification. -/
+theorem createNodeU_spec (c : Content) (s : Mgr) (hs : Inv s) :
+    let r := createNodeU c s
     Inv r.2 ∧ Ext s r.2 ∧
     (∀ i, r.1 = .ok i → (c, i) ∈ r.2.formulae) ∧
     (∀ e, r.1 = .error e → r.2 = s) ∧
     r.2.intConsts = s.intConsts ∧ r.2.realConsts = s.realConsts ∧ r.2.strConsts = s.strConsts ∧
     r.2.symbols = s.symbols ∧ r.2.fresh = s.fresh ∧ r.2.tm = s.tm := by
-  simp only [createNode]
+  simp only [createNodeU]
   split
   next hv =>
     split
@@ -181,6 +183,48 @@ theorem createNode_spec (c : Content) (s : Mgr) (hs : Inv s) :
         · exact List.mem_cons_of_mem _ hs.ff
       · intro i hi; cases hi; simp
   next => exact ⟨hs, Ext.refl s, by simp, by simp, rfl, rfl, rfl, rfl, rfl, rfl⟩
+
+/-- the type check changes only the outcome, never the state -/
+theorem createNode_state (c : Content) (s : Mgr) : (createNode c s).2 = (createNodeU c s).2 := by
+  unfold createNode
+  cases h : createNodeU c s with
+  | mk r s' =>
+    cases r with
+    | error e => rfl
+    | ok i => simp only; split <;> rfl
+
+theorem createNode_ok_iff (c : Content) (s : Mgr) (i : Nid) :
+    (createNode c s).1 = .ok i ↔ (createNodeU c s).1 = .ok i ∧ s.tc c = true := by
+  unfold createNode
+  cases h : createNodeU c s with
+  | mk r s' =>
+    cases r with
+    | error e => simp
+    | ok j =>
+      simp only
+      split
+      next ht => simp [ht]
+      next ht => simp [ht]
+
+theorem createNodeU_tc (c : Content) (s : Mgr) : (createNodeU c s).2.tc = s.tc := by
+  unfold createNodeU; split
+  · split <;> rfl
+  · rfl
+
+/-- What `create_node` does, as a specification: for every verdict of the type checker the
+    invariant is kept and the state only extended; a returned node has the requested content. -/
+theorem createNode_spec (c : Content) (s : Mgr) (hs : Inv s) :
+    let r := createNode c s
+    Inv r.2 ∧ Ext s r.2 ∧
+    (∀ i, r.1 = .ok i → (c, i) ∈ r.2.formulae) ∧
+    (r.2 = (createNodeU c s).2) ∧
+    r.2.intConsts = s.intConsts ∧ r.2.realConsts = s.realConsts ∧ r.2.strConsts = s.strConsts ∧
+    r.2.symbols = s.symbols ∧ r.2.fresh = s.fresh ∧ r.2.tm = s.tm := by
+  have hu := createNodeU_spec c s hs
+  simp only [createNode_state]
+  refine ⟨hu.1, hu.2.1, ?_, trivial, hu.2.2.2.2⟩
+  intro i hi
+  exact hu.2.2.1 i ((createNode_ok_iff c s i).mp hi).1
 
 /-! ## the other primitives -/
 
@@ -394,15 +438,87 @@ theorem Prog.run_spec {α : Type} (p : Prog α) : ∀ (s : Mgr), Inv s → Inv (
       have := ih i s' hp.inv
       exact ⟨this.1, hp.ext.trans this.2⟩
 
-/-- States reachable from a fresh manager by any finite history of programs (each may be any
+/-- States reachable from a fresh manager (with any type-checker verdict function) by any finite history of programs (each may be any
     client of the primitives: the constructors of `Impl/Manager.lean` or anything else). -/
 inductive Reachable : Mgr → Prop
-  | init : Reachable Mgr.init
+  | init (tc : Content → Bool) : Reachable (Mgr.initWith tc)
   | step {α : Type} (p : Prog α) {s : Mgr} : Reachable s → Reachable (p.run s).2
 
 theorem Reachable.inv {s : Mgr} (h : Reachable s) : Inv s := by
   induction h with
-  | init => exact inv_init
+  | init tc => exact inv_initWith tc
   | step p _ ih => exact (Prog.run_spec p _ ih).1
+
+/-! ## the type checker verdict is a constant of the manager -/
+
+theorem createNode_tc (c : Content) (s : Mgr) : (createNode c s).2.tc = s.tc := by
+  rw [createNode_state]; exact createNodeU_tc c s
+
+theorem Prim.exec_tc (p : Prim) (s : Mgr) : (p.exec s).2.tc = s.tc := by
+  cases p with
+  | create c => exact createNode_tc c s
+  | intConst v =>
+    simp only [Prim.exec, PySMT.Manager.intConst]
+    cases v.intValue with
+    | error e => rfl
+    | ok n =>
+      simp only
+      split
+      · rfl
+      · have := createNode_tc (intC n) s
+        generalize createNode (intC n) s = r at this
+        obtain ⟨r1, s1⟩ := r
+        cases r1 <;> exact this
+  | realConst v =>
+    simp only [Prim.exec, PySMT.Manager.realConst]
+    cases v.realValue with
+    | error e => rfl
+    | ok q =>
+      simp only
+      split
+      · rfl
+      · have := createNode_tc (realC q) s
+        generalize createNode (realC q) s = r at this
+        obtain ⟨r1, s1⟩ := r
+        cases r1 <;> exact this
+  | strConst x =>
+    simp only [Prim.exec, PySMT.Manager.strConst]
+    split
+    · rfl
+    · have := createNode_tc (strC x) s
+      generalize createNode (strC x) s = r at this
+      obtain ⟨r1, s1⟩ := r
+      cases r1 <;> exact this
+  | symbol n t =>
+    simp only [Prim.exec, symbolPrim]
+    split
+    · split
+      · split <;> rfl
+      · rfl
+    · split
+      · rfl
+      · have := createNode_tc (symC n t) s
+        generalize createNode (symC n t) s = r at this
+        obtain ⟨r1, s1⟩ := r
+        cases r1 <;> exact this
+  | setFresh n => rfl
+  | internTy t =>
+    simp only [Prim.exec, internTyPrim]
+    split <;> rfl
+
+theorem Prog.run_tc {α : Type} (p : Prog α) : ∀ (s : Mgr), (p.run s).2.tc = s.tc := by
+  induction p with
+  | pure a => intro s; rfl
+  | fail e => intro s; rfl
+  | read k ih => intro s; exact ih s s
+  | prim p k ih =>
+    intro s
+    simp only [Prog.run]
+    have hp := Prim.exec_tc p s
+    generalize p.exec s = r at hp
+    obtain ⟨r1, s'⟩ := r
+    cases r1 with
+    | error e => exact hp
+    | ok i => rw [ih i s']; exact hp
 
 end PySMT.Manager
